@@ -134,10 +134,18 @@ let handle (fs : string list) : string =
                    (match st.st_warn with [] -> "." | ws -> String.concat "/" (List.map show_warning ws))))
   | ["docutils"; imp; field; s; y] ->
     let opts = [((str_of_field field, str_of_field s), yaml_of y)] in
-    (match decode_options Model.fields opts with
+    (match decode_options optparse_rules Model.fields opts with
      | Raise _ -> "!opt"                    (* the option parser exits with an error *)
-     | Ok _ -> show_res_cfg (docutils_config (env_of imp) Model.fields opts))
+     | Ok _ -> show_res_cfg (docutils_config (env_of imp) optparse_rules Model.fields opts))
   | ["sphinx"; imp; conf] -> show_res_cfg (sphinx_config (env_of imp) Model.fields (parse_kwargs conf))
+  | ["reach"] ->
+    (* rules of the option-string if-chain that decide no docutils-visible field; and per field its rule *)
+    String.concat "," (List.map (fun i -> string_of_int (int_of_nat i)) (unused_rule_indices optparse_rules Model.fields))
+    ^ " # " ^
+    String.concat "," (List.map (fun f -> field_of_str f.f_name ^ ":" ^
+                                          (if f.f_omit_docutils then "omit" else
+                                             match rule_index optparse_rules f with
+                                             | Some i -> string_of_int (int_of_nat i) | None -> "none")) Model.fields)
   | _ -> "!badcmd"
 
 let () = main handle
